@@ -1,5 +1,5 @@
 //@unit retry
-//@props C10 C17 C08 C01 C15
+//@props C10 C17 C08 C01 C15 C09 C16
 // U-retry: the forward-reference retry loop `process_tags` (src/transform.rs).
 // Every call of Tag::generate_events appends one ghost step Gen(tag, outcome) to the context.
 // Proved: the loop terminates; on Ok every tag of the list has a successful step (no failing tag is
@@ -46,7 +46,8 @@ pub open spec fn is_limit(e: SvgdxError) -> bool {
 pub enum Outcome { Done(Option<BoundingBox>), LimitErr, OtherErr }
 pub struct Gen { pub tag: Tag, pub outcome: Outcome }
 /// ghost: `tr` = generate_events calls in order; `registered` = elements passed to update_element, in order
-/// ghost: `bind` = the variable bindings in force (the scope stack's content), abstract
+/// ghost: `bind` = the lexical context an element is evaluated in: the variable bindings in force (the scope
+/// stack's content) and the previous element (what `^` refers to), abstract
 #[verifier::external_body] pub struct Bind { _p: u8 }
 pub struct TransformerContext { pub in_specs: bool, pub tr: Ghost<Seq<Gen>>, pub registered: Ghost<Seq<SvgElement>>, pub bind: Ghost<Bind>, pub rest: CtxRest }
 pub uninterp spec fn tag_el(t: Tag) -> Option<SvgElement>;
@@ -189,7 +190,7 @@ pub proof fn lemma_no_limit_push(tr: Seq<Gen>, g: Gen, from: int)
 //@ | let ghost mut g_done: nat = 0;
 //@ before <<<let gen_result = t.generate_events(context);>>>
 //@ | proof { if !g_first.dom().contains(idx) { g_first = g_first.insert(idx, context.bind@); } }
-//@ | assert(g_first[idx] == context.bind@); // every evaluation of an element, first or repeated, sees the bindings in force at its place in the document @C15.retry.same_bindings
+//@ | assert(g_first[idx] == context.bind@); // every evaluation of an element, first or repeated, sees the lexical context (variable bindings, previous element '^') of its place in the document @C15.retry.same_bindings @C10.retry.same_context @C09.retry.same_context @C16.retry.same_context
 //@ after <<<let (idx, t) = pair;>>>
 //@ | let ghost tr0 = context.tr@;
 //@ | let ghost rem0 = remain@;
